@@ -60,6 +60,14 @@ theorem reader_sections_partition (o : Opts) (m : Msg) :
   apply List.take_of_length_le
   omega
 
+/-- The `Decode` body reader of a snapshot gives back the message body for every framing
+(de-chunked when chunked), decompressed by the trusted gzip/flate when so announced. -/
+theorem decode_reader_returns_body (infl : Bytes → Bytes → Option Bytes) (o : Opts) (m : Msg) (b : Bytes)
+    (hc : captures o m = true) (hb : m.body = some b) :
+    decodeBody infl (snapshot o m) =
+      if compressOf m == gzipTok || compressOf m == deflateTok then infl (compressOf m) b else some b :=
+  decodeBody_snapshot infl o m b hc hb
+
 /-- Every logger, every option combination, skip flag set or not: the message handed on is the
 message received (same start line, headers, framing fields, body bytes, trailers). -/
 theorem logger_identity (l : Logger) (skip : Bool) (m : Msg) : (logMsg l skip m).1 = m := by
